@@ -459,4 +459,97 @@ Theorem run_search_inv evs :
 Proof.
   unfold run_search. destruct start_inv as (s & -> & I). apply run_events_inv. exact I.
 Qed.
+
+(* ---- what the result of a lookup is (C01) -------------------------------------------------------- *)
+Lemma live_states st : in_states live st = true <-> st <> Unreachable.
+Proof. destruct st; simpl; split; intro H; try reflexivity; try discriminate; congruence. Qed.
+
+Lemma result_members s p : Inv s ->
+  (In p (closest_in_states (cKey c) live (ps s)) <->
+   In p (resp_heard (evlog s)) /\ p <> self /\ ~ In p (resp_failed (evlog s))).
+Proof.
+  intro I. rewrite (closest_in_states_In _ _ _ _ (iv_nodup _ I)). split.
+  - intros [st [Hs Hl]]. apply live_states in Hl.
+    assert (Hin: In p (ids (ps s))) by (eapply state_of_Some_In; eauto).
+    apply (iv_heard _ I) in Hin. destruct Hin as [H1 H2]. split; [exact H1|]. split; [exact H2|].
+    intro F. apply (iv_unreach _ I) in F. congruence.
+  - intros (H1 & H2 & H3). assert (Hin: In p (ids (ps s))) by (apply (iv_heard _ I); auto).
+    destruct (state_of (ps s) p) as [st|] eqn:E; [|apply state_of_None in E; contradiction].
+    exists st. split; [reflexivity|]. apply live_states. intro; subst st. apply H3. apply (iv_unreach _ I). exact E.
+Qed.
+
+Lemma resp_heard_origin l p : Forall ev_ok l -> In p (resp_heard l) ->
+  In p seeds \/ exists cause closer, env cause = OAnswer closer /\ In p (process_response c closer) /\ In cause (resp_queried l).
+Proof.
+  induction l as [|e l IH]; intros F H; [destruct H|].
+  inversion F as [|? ? He F']; subst.
+  change (resp_heard (e :: l)) with ((match e with EvResp _ h _ _ => h | _ => [] end) ++ resp_heard l) in H.
+  apply in_app_iff in H. destruct H as [H|H].
+  - destruct e as [? ?|cause h q u|?]; try destruct H. simpl in He.
+    destruct He as [(E1 & E2 & _)|[(_ & E1 & E2 & closer & E3 & E4)|(_ & _ & _ & E & _)]].
+    + left. congruence.
+    + right. exists cause, closer. split; [exact E3|]. split; [congruence|].
+      change (resp_queried (EvResp cause h q u :: l)) with (q ++ resp_queried l). rewrite E1. left. reflexivity.
+    + rewrite E in H. destruct H.
+  - destruct (IH F' H) as [S|(cause & closer & A & B & C)]; [left; exact S|].
+    right. exists cause, closer. split; [exact A|]. split; [exact B|].
+    change (resp_queried (e :: l)) with ((match e with EvResp _ _ q _ => q | _ => [] end) ++ resp_queried l).
+    apply in_app_iff. right. exact C.
+Qed.
+
+Theorem result_spec s : Inv s ->
+  let r := construct_result c s in
+  let key := cKey c in
+  (length (r_peers r) <= cK c)%nat /\
+  NoDup (r_peers r) /\
+  ~ In self (r_peers r) /\
+  StronglySorted (lt_dist key) (r_peers r) /\
+  (* provenance *)
+  (forall p, In p (r_peers r) ->
+     In p seeds \/ exists cause closer, env cause = OAnswer closer /\ In p (process_response c closer) /\
+                                        In cause (resp_queried (evlog s))) /\
+  (* none failed *)
+  (forall p, In p (r_peers r) -> ~ In p (resp_failed (evlog s))) /\
+  (* exactly the K nearest of the learned, non-failed peers *)
+  (forall p, In p (resp_heard (evlog s)) -> p <> self -> ~ In p (resp_failed (evlog s)) -> ~ In p (r_peers r) ->
+     length (r_peers r) = cK c /\ forall m, In m (r_peers r) -> lt_dist key m p).
+Proof.
+  intro I. cbv zeta. unfold construct_result. cbn [r_peers].
+  set (L := closest_in_states (cKey c) live (ps s)).
+  assert (NDL: NoDup L) by (apply closest_in_states_nodup; apply (iv_nodup _ I)).
+  assert (SL: StronglySorted (lt_dist (cKey c)) L) by (apply closest_in_states_sorted; apply (iv_nodup _ I)).
+  split; [apply firstn_le_length|].
+  split; [apply NoDup_firstn; exact NDL|].
+  split.
+  { intro H. apply firstn_In_local in H. apply (result_members s self I) in H. tauto. }
+  split; [apply StronglySorted_firstn; exact SL|].
+  split.
+  { intros p H. apply firstn_In_local in H. apply (result_members s p I) in H. destruct H as (H1 & _).
+    apply (resp_heard_origin _ _ (iv_evok _ I) H1). }
+  split.
+  { intros p H. apply firstn_In_local in H. apply (result_members s p I) in H. tauto. }
+  intros p H1 H2 H3 H4.
+  assert (HL: In p L) by (apply (result_members s p I); auto).
+  rewrite <- (firstn_skipn (cK c) L) in HL. apply in_app_iff in HL. destruct HL as [HL|HL]; [contradiction|].
+  split.
+  - apply firstn_length_le. destruct (le_lt_dec (cK c) (length L)) as [Hle|Hlt]; [exact Hle|].
+    rewrite skipn_all2 in HL by lia. destruct HL.
+  - intros m Hm. eapply firstn_skipn_sorted; eauto.
+Qed.
+
+(* ---- the event log agrees with the requests and answers (C01, last clause) ------------------------ *)
+Theorem events_spec s : Inv s ->
+  Forall ev_ok (evlog s) /\
+  reqs s = req_peers (evlog s) /\
+  NoDup (req_peers (evlog s)) /\
+  NoDup (resp_queried (evlog s) ++ resp_failed (evlog s)) /\
+  (forall p, In p (resp_queried (evlog s) ++ resp_failed (evlog s)) -> In p (req_peers (evlog s))) /\
+  match term s with
+  | None => no_term (evlog s)
+  | Some r => exists l, evlog s = l ++ [EvTerm r] /\ no_term l
+  end.
+Proof.
+  intro I. split; [apply (iv_evok _ I)|]. split; [apply (iv_reqs _ I)|]. split; [apply (iv_req_nodup _ I)|].
+  split; [apply (iv_resp_nodup _ I)|]. split; [apply (iv_resp_sub _ I)|apply (iv_term _ I)].
+Qed.
 End Lk.
